@@ -1,9 +1,10 @@
 (* C13 driver: one case per line
      <id> <max> <off> <contents-hex> <op> <args> ... 
    prints "M <id> tok..." (mechanism model) and "S <id> tok..." (specification).
-   Three kinds of cases (see harness/c13_cxx.cpp):
+   Four kinds of cases (see harness/c13_cxx.cpp):
      - C operations and io::queue methods (io...) on one queue: qrun / srun
      - raw encode_queue (first operation starts with 'e'): erun / esrun
+     - raw decode_queue (first operation is dset): drun / dsrun
      - xround: a message through encode_queue(COBS) -> decode_queue(COBS).  No model exists
        for this layer (the codec belongs to C01/C02): M and S are the specification only,
        "the message comes out as it went in, both rings end up empty". *)
@@ -50,6 +51,25 @@ let rec parse_eops toks = match toks with
   | "etrim" :: n :: r -> ETrim (nat n) :: parse_eops r
   | t :: _ -> failwith ("bad op " ^ t)
 
+(* raw decode_queue: d... operations, everything else is a C operation on the embedded ring *)
+let c_arity = function
+  | "string" -> 0
+  | "push" | "unshift" | "align" | "resize" | "prepare" -> 1
+  | "pop" | "shift" | "crop" | "get" | "set" | "setz" | "find" -> 2
+  | t -> failwith ("bad op " ^ t)
+let rec take_n k l = if k = 0 then ([], l) else match l with [] -> failwith "short" | x :: r -> let (a, b) = take_n (k-1) r in (x :: a, b)
+let msg_of s = let v = int_of_string s in if v < 0 then None else Some (nat_of_int v)
+let rec parse_dops toks = match toks with
+  | [] -> []
+  | "dset" :: c :: p :: l :: m :: x :: r -> DSet (nat c, nat p, nat l, msg_of m, x <> "0") :: parse_dops r
+  | "drecv" :: r -> DRecv :: parse_dops r
+  | "dpeek" :: n :: h :: r -> DPeek (nat n, h = "1") :: parse_dops r
+  | "dshift" :: r -> DShift :: parse_dops r
+  | "dadv" :: r -> DAdvance :: parse_dops r
+  | "dcur" :: h :: r -> DCurrent (h = "1") :: parse_dops r
+  | op :: r -> let (a, rest) = take_n (c_arity op) r in
+    (match parse_ops (op :: a) with [o] -> DQ o :: parse_dops rest | _ -> failwith "bad op")
+
 let rec parse_rounds toks = match toks with
   | [] -> []
   | "xround" :: h :: r -> h :: parse_rounds r
@@ -65,6 +85,9 @@ let show_out o = match o with
   | OFault -> "F"
 
 let show ((o, c), m) = show_out o ^ "|" ^ hex_of_bytes c ^ "|" ^ string_of_int (int_of_nat m)
+let dshow (((o, c), m), (((cu, p), l), mg)) =
+  show ((o, c), m) ^ "|" ^ string_of_int (int_of_nat cu) ^ "," ^ string_of_int (int_of_nat p) ^ ","
+  ^ string_of_int (int_of_nat l) ^ "," ^ (match mg with None -> "-1" | Some v -> string_of_int (int_of_nat v))
 let eshow ((((o, c), m), dn), sc) =
   show ((o, c), m) ^ "|" ^ string_of_int (int_of_nat dn) ^ "," ^ string_of_int (int_of_nat sc)
 
@@ -84,6 +107,11 @@ let () =
          let l = String.concat " " (List.map (fun h -> "B:" ^ h ^ "|0|0") (parse_rounds ops)) in
          Printf.printf "M %s %s\n" id l;
          Printf.printf "S %s %s\n" id l
+       | "dset" :: _ ->
+         let d = { dring = q; dcurr = O; dpos = O; dlen = O; dmsg = None; dctx = false } in
+         let ops = parse_dops ops in
+         Printf.printf "M %s %s\n" id (String.concat " " (List.map dshow (drun d ops)));
+         Printf.printf "S %s %s\n" id (String.concat " " (List.map dshow (dsrun d (dabs d) ops)))
        | o1 :: _ when o1.[0] = 'e' ->
          let e = { ering = q; edone = q.qlen; escr = O } in
          let ops = parse_eops ops in
